@@ -701,6 +701,15 @@ fn check_finite(case: &KCase, polls_only: bool) -> Outcome {
                     _ => {}
                 }
             }
+            if o.nonfinite_seconds > 0 {
+                // release builds turn such a value silently into 0 / the extreme durations
+                bail!(
+                    "non-finite-seconds-converted-to-duration",
+                    "op {i}: {} NaN/infinite value(s) went through NtpDuration::from_seconds (clock events of the op: {:?})",
+                    o.nonfinite_seconds,
+                    o.events
+                );
+            }
             if let Some(f) = o.snapshot_floats {
                 if f.iter().any(|v| !v.is_finite()) {
                     bail!("non-finite-number-in-published-snapshot", "op {i}: root variance terms {f:?}");
